@@ -45,6 +45,13 @@ def _pre_case(draw, nmax):
     nq = draw(st.integers(1, 4))
     W, wm = draw(gen.weight_matrix(nt + nq, allow_zero=False, mode=draw(st.sampled_from(["tiefree", "neartie", "neartie"]))))
     Y = draw(gen.labels(nt, 2, 3))
+    if draw(st.integers(0, 2)) == 0:
+        # one exactly-zero weight (two coincident samples): still tie-free, but "null" arcs must be treated like any other arc
+        a = draw(st.integers(0, nt - 1))
+        b = draw(st.integers(0, nt - 2))
+        b = b if b < a else b + 1
+        W[a][b] = W[b][a] = 0.0
+        wm += "_onezero"
     perm = list(draw(st.permutations(list(range(nt)))))
     return {"mode": "pre", "W": W, "wmode": wm, "nt": nt, "nq": nq, "Y": Y, "perm": perm}
 
